@@ -349,6 +349,10 @@ func c12TimeCases(g *G) []c12TimeCase {
 	out = append(out, c12TimeCase{ns(1 << 32), ns(1<<32 + 1), 0}, c12TimeCase{ns(1<<33 + 7), ns(1<<33 + 9), 5})
 	// largest uint64 nanoseconds
 	out = append(out, c12TimeCase{1<<64 - 2, 1<<64 - 1, 0})
+	// nanosecond values at and above 2^63 (negative once converted to a signed 64-bit type), in different seconds
+	out = append(out, c12TimeCase{1 << 63, 1<<63 + 5_000_000_000, 0}, c12TimeCase{1<<63 + 3_000_000_000, 1<<64 - 1, 7},
+		c12TimeCase{1_000_000_000, 1<<63 + 7_000_000_000, 0}, c12TimeCase{1<<64 - 10_000_000_000, 1<<64 - 1, 0},
+		c12TimeCase{1<<63 - 2_000_000_000, 1<<63 + 1, 1})
 	return out
 }
 
